@@ -126,7 +126,7 @@ TypedValidate(v) == v.arm \notin ({"none"} \cup Pseudo)      \* FieldConstraints
 ArmRead(kind) ==
     CASE kind \in {"int32", "sint32"} -> "int32" [] kind = "uint32" -> "uint32"
       [] kind \in {"int64", "sint64"} -> "int64" [] kind = "uint64" -> "uint64"
-      [] kind = "float" -> "float" [] kind \in {"double", "fixed64", "sfixed64"} -> "double"
+      [] kind = "float" -> "float" [] kind = "double" -> "double"
       [] OTHER -> "-"
 
 StringFormat(v) ==     \* format derived from a validate.string rule; "!" = rejected well-known constraint
@@ -149,7 +149,7 @@ StringOutcome(v, l, j, p) ==
 ScalarOutcome(kind, v, l, j, p) ==
     CASE kind = "string" -> StringOutcome(v, l, j, p)
       [] kind \in {"bool", "bytes"} -> "builds"
-      [] kind \in {"fixed32", "sfixed32"} -> "errors"                  \* "unsupported field type"
+      [] kind \in {"fixed32", "sfixed32", "fixed64", "sfixed64"} -> "errors"   \* "unsupported field type"
       [] OTHER -> IF v.arm = ArmRead(kind) /\ v.var \in {"const", "in", "not_in"} THEN "errors" ELSE "builds"
 
 EnumOutcome(e, v) ==
@@ -439,9 +439,32 @@ EnumPass ==
        ELSE /\ enumsDone' = TRUE /\ steps' = steps + 1
             /\ UNCHANGED <<shapeVars, phase, run, reg, ereg, todo, stack, outcomes, enters>>
 
+\* validateBuiltRef, applied to everything the run built: an object flattened into itself (directly or through other
+\* flattened objects) and two properties with one JSON name are rejected when built
+IsFlatten(f) == f.kind = "message" /\ f.card \in {"single", "optional"}
+                /\ \E k \in 1..Len(f.anns) : f.anns[k].cls = "j5" /\ f.anns[k].arm \in {"object", "message"} /\ f.anns[k].var = "flatten"
+\* (a member of an exposed oneof belongs to that oneof's schema, not to the object's properties)
+InExposed(m, f) == f.oneof # 0 /\ f.oneof <= Len(m.oneofs) /\ m.oneofs[f.oneof].opt = "expose"
+IsFlattenIn(m, f) == IsFlatten(f) /\ ~InExposed(m, f)
+FlatEdge(a, b) == /\ ~IsWrapper(msgs[b])      \* a field whose type is a oneof wrapper is a oneof field: nothing to flatten
+                  /\ \E k \in 1..Len(msgs[a].fields) : IsFlattenIn(msgs[a], msgs[a].fields[k]) /\ msgs[a].fields[k].ref = msgs[b].name
+RECURSIVE FlatReach(_, _, _)
+FlatReach(S, target, n) ==
+    IF target \in S THEN TRUE
+    ELSE IF n = 0 THEN FALSE
+    ELSE LET N == S \cup { b \in 1..Len(msgs) : \E a \in S : FlatEdge(a, b) } IN IF N = S THEN FALSE ELSE FlatReach(N, target, n - 1)
+FlatCycle(a) == FlatReach({ b \in 1..Len(msgs) : FlatEdge(a, b) }, a, Len(msgs))
+NameClash(a) ==
+    \/ /\ \E k \in 1..Len(msgs[a].fields) : msgs[a].fields[k].name = "fooBar"
+       /\ \E k \in 1..Len(msgs[a].oneofs) : msgs[a].oneofs[k].name = "foo_bar" /\ msgs[a].oneofs[k].opt = "expose"
+    \/ /\ ~IsWrapper(msgs[a])            \* a oneof wrapper's options are not flattened
+       /\ \E k \in 1..Len(msgs[a].fields) : msgs[a].fields[k].name = "clash" /\ ~IsFlatten(msgs[a].fields[k])
+       /\ \E b \in 1..Len(msgs) : FlatEdge(a, b) /\ \E k \in 1..Len(msgs[b].fields) : msgs[b].fields[k].name = "clash"
+Unusable == \E a \in 1..Len(msgs) : reg[a] = "built" /\ ((~IsWrapper(msgs[a]) /\ FlatCycle(a)) \/ NameClash(a))
+
 FinishRun ==
     /\ phase = "reflect" /\ stack = <<>> /\ todo = <<>> /\ (run # 0 \/ enumsDone)
-    /\ NextRun("builds") /\ steps' = steps + 1 /\ UNCHANGED <<shapeVars>>
+    /\ NextRun(IF Unusable THEN "errors" ELSE "builds") /\ steps' = steps + 1 /\ UNCHANGED <<shapeVars>>
 
 Reflect == NextRoot \/ FieldStep \/ Pop \/ EnumPass \/ FinishRun
 
